@@ -57,7 +57,7 @@ def make_jobs(tier, seed, build, grammars=None):
     nmax = 3 if tier == "quick" else 4
     for gname in (grammars or GRAMMARS):
         g = CORPUS[gname]
-        for shape in tok.all_shapes_by_words(nmax, g.decl):
+        for shape in tok.all_shapes_by_words(nmax, g.decl, full_upto=3):
             jobs.append({"id": "%s:%s" % (gname, ",".join(shape)), "grammar": gname, "shape": shape, "fs": "none"})
     if grammars is None:
         for gname in CORPUS:
